@@ -254,3 +254,40 @@ PROPERTIES["C14"] = {
     "bounds": {"quick": {"variable K patterns on 3x4": "every 37th of 4095"}, "thorough": {"variable K patterns on 3x4": "all 4095"}},
     "deadline": {"quick": 600, "thorough": 3000},
 }
+
+
+def _st(q, t):
+    return {"quick": ["--stride", str(q)], "thorough": ["--stride", str(t)]}
+
+
+PROPERTIES["C08"] = {
+    "engine": "sse",
+    "level_text": "the enumerations of the other SSE checks (flow, grid, history/snapshot/program, basin graph, both "
+                  "eroders) are re-run, on a fixed stride of their worlds, by builds of the same harnesses instrumented "
+                  "with AddressSanitizer + UndefinedBehaviorSanitizer + libstdc++ assertions; the sanitizer is the "
+                  "oracle (functional oracles are muted), every report is attributed to the world being executed and "
+                  "keyed by error kind + first library source line",
+    "level_note": "absence of UB is established for the enumerated executions only and for the classes these tools see "
+                  "(out-of-bounds, use-after-free/scope/return, signed overflow, invalid shifts/casts, misaligned or "
+                  "null access, libstdc++ container preconditions); quick visits every 8th..96th world of each quick "
+                  "enumeration, thorough every 1st..6th of each thorough enumeration",
+    "technique": "small-scope exhaustive enumeration (strided) under ASan/UBSan instrumentation, sanitizer-as-oracle",
+    "harnesses": [
+        {"name": "san_flow", "families": ["queen", "trimesh", "profile"], "args": _st(96, 6)},
+        {"name": "san_grid", "args": _st(8, 1)},
+        {"name": "san_hist", "families": ["queen"], "args": _st(8, 2)},
+        {"name": "san_basin", "families": ["rook"], "args": _st(64, 4)},
+        {"name": "san_spl", "families": ["queen"], "args": _st(8, 1)},
+        {"name": "san_adi", "args": _st(8, 1)},
+    ],
+    "rule": "worlds = every stride-th world of the C01-C07, C09, C12-C20 enumerations; transitions = library calls "
+            "executed under instrumentation; non-trivial / distinct = as counted by the underlying enumerations "
+            "(outcome digests), summed over harnesses",
+    "assumptions": ["g++ 12 -O1 -fsanitize=address,undefined -D_GLIBCXX_ASSERTIONS, detect_stack_use_after_return=1",
+                    "reports for the same program counter are de-duplicated per worker by the ASan runtime",
+                    "strict-aliasing violations and reads of indeterminate values are not detected by these tools",
+                    "a caller-side use of something the library handed out (e.g. a dangling reference returned by an "
+                    "iterator) is keyed by the harness stage instead of a library line"],
+    "bounds": {"quick": {"stride": "flow 96, basin 64, others 8"}, "thorough": {"stride": "flow 6, basin 4, hist 2, others 1"}},
+    "deadline": {"quick": 900, "thorough": 3000},
+}
